@@ -174,6 +174,44 @@ func runPrio(c *Ctx) {
 	}
 	c.R.Add("PRIO-D", "resolver|only-same-named-value-vertices", "resolver", r1.Pos, nameGuard && kindGuard,
 		"only in-edges of value vertices whose name equals the current parameter's name are discounted", fmt.Sprintf("kind-guard=%v name-equality=%v", kindGuard, nameGuard), core.LitStrings(r1.Lits)...)
+	// every in-edge of such a vertex is discounted: the loop over its in-edges has no condition of its own and no early
+	// exit (skipping or stopping at some sources leaves ties between same-typed inputs)
+	{
+		blk := r1.Inner.Block()
+		var hdr *ssa.BasicBlock
+		for d := blk.Idom(); d != nil; d = d.Idom() {
+			if core.ReachableAvoiding(blk, d, nil) {
+				hdr = d
+				break
+			}
+		}
+		allEdges, whyAll := hdr != nil, "in-edge loop not recognised"
+		if hdr != nil {
+			whyAll = "every in-edge"
+			for _, g := range core.Guards(blk) {
+				if g.At.Block() != hdr && hdr.Dominates(g.At.Block()) {
+					l := core.LitOf(g.Cond, g.Pol)
+					if !core.IsLoopBound(l) {
+						allEdges, whyAll = false, "a condition inside the in-edge loop selects which edges are discounted: "+l.String()
+					}
+				}
+			}
+			// the loop is left only through its header
+			var body, exit *ssa.BasicBlock
+			for _, sc := range hdr.Succs {
+				if sc == blk || core.ReachableAvoiding(sc, blk, map[*ssa.BasicBlock]bool{hdr: true}) {
+					body = sc
+				} else {
+					exit = sc
+				}
+			}
+			if body != nil && exit != nil && core.ReachableAvoiding(body, exit, map[*ssa.BasicBlock]bool{hdr: true}) {
+				allEdges, whyAll = false, "the in-edge loop can be left early (break) before every in-edge was discounted"
+			}
+		}
+		c.R.Add("PRIO-D", "resolver|every-in-edge-discounted", "resolver", r1.Pos, allEdges,
+			"all in-edges of a same-named value vertex receive the discount (no per-edge condition, no early exit)", whyAll)
+	}
 	c.R.Add("PRIO-D", "resolver|only-for-named-parameters", "resolver", r1.Pos, curIsValue,
 		"discounting happens only while resolving a named parameter (type-only parameters see the undiscounted, non-negative weights)", fmt.Sprintf("ok=%v", curIsValue))
 	// one fresh copy per parameter: the Copy is made in the iteration that selects the current parameter
